@@ -25,7 +25,8 @@ LEVEL = "exploration"
 RULE = (
     "per protocol version 4..14: frames derived from valid response/callback frames of generated commands by truncation "
     "at every length, byte flips, frame-ID substitution (known other / unknown), sequence substitution (pending / not "
-    "pending), trailing junk, plus uniformly random strings of 0..64 bytes; each with and without a pending command; plus "
+    "pending), trailing junk, plus uniformly random strings of 0..64 bytes; each with and without a pending command, on a fresh "
+    "handler or on one that has received frames before (the same frame once or twice, another mutated frame); plus "
     "an atheris campaign with the same oracle. Non-trivial = the frame differs from every valid frame for the pending call "
     "and is not empty; distinct by (version, pending command, frame bytes)."
 )
@@ -79,6 +80,15 @@ async def scenario(loop, plan):
     ezsp.add_callback(lambda *a: cbs.append(a))
     out = {"raised": None, "cbs": cbs, "pending_outcome": None, "after": None}
     frame = bytes.fromhex(plan["frame"])
+    for fb in plan.get("before") or []:
+        # frames the same handler has received earlier (possibly the very same bytes): what the handler made of them must
+        # not change what it makes of the frame under test
+        try:
+            ezsp.frame_received(bytes.fromhex(fb))
+        except BaseException as ex:
+            out["raised"] = "earlier frame: " + repr(ex)
+        await asyncio.sleep(0.001)
+    cbs.clear()
     task = None
     t0 = loop.time()
     pend = plan.get("pending")
@@ -186,6 +196,10 @@ def check(plan) -> Result:
     answers_pending = bool(pend) and ex is not None and ex[0] == pend["seq"] and pend.get("switch_to") is None
     if pend and pend.get("switch_to") is not None:
         r.cls("handler-switched-while-pending")
+    if plan.get("before"):
+        r.cls("earlier-frames-on-the-same-handler")
+        if plan["frame"] in plan["before"]:
+            r.cls("same-frame-received-before")
     expect_cb = decoded is not None and not answers_pending
     cbs = out["cbs"][:len(out["cbs"]) - out["cbs_after"]] if out["cbs_after"] else out["cbs"]
     if expect_cb:
@@ -306,8 +320,39 @@ def plans(draw, versions=None):
     return {"v": v, "pending": pend, "frame": bytes(frame).hex(), "mut": mut}
 
 
+@st.composite
+def plans_with_history(draw):
+    plan = draw(plans())
+    if draw(st.integers(0, 2)) == 0 and not (plan.get("pending") or {}).get("switch_to"):
+        fr = plan["frame"]
+        other = draw(plans(versions=[plan["v"]]))["frame"]
+        plan["before"] = draw(st.sampled_from([[fr], [fr, fr], [other], [other, fr], [fr, other]]))
+    return plan
+
+
 def _worker(ctx, n):
-    ctx.search(plans(), check, max_examples=n)
+    ctx.search(plans_with_history(), check, max_examples=n)
+
+
+def _worker_repeat(ctx, v):
+    """The same frame twice on one handler, for unknown frame IDs and for known IDs with undecodable payloads."""
+    import bellows.ezsp as e
+
+    cls = e.EZSP._BY_VERSION[v]
+    ids = sorted(c for c, _, _ in cls.COMMANDS.values())
+    top = 0xFFFF if refezsp.layout(v) == "extended" else 0xFF
+    unknown = [x for x in range(top + 1) if x not in ids]
+    picks = unknown[:3] + unknown[-3:] + unknown[len(unknown) // 2:len(unknown) // 2 + 2]
+    nid = cls.COMMANDS["getNodeId"][0]
+    for fid in picks + [nid, cls.COMMANDS["incomingMessageHandler"][0]]:
+        for payload in (b"", b"\x00", bytes(range(1, 9))):
+            if fid == nid and len(payload) == 8:
+                payload = b"\x34"  # one byte short of a node ID
+            frame = (refezsp.header(v, 0x21, fid, 0x80) + payload).hex()
+            for pend in (None, {"name": "getNodeId", "seq": 0x21, "txb": ""}, {"name": "nop", "seq": 0x22, "txb": ""}):
+                for before in ([frame], [frame, frame]):
+                    plan = {"v": v, "pending": pend, "frame": frame, "before": before, "mut": "repeat"}
+                    ctx.check(plan, check(plan), sample=(fid == picks[0] and pend is None and len(before) == 1 and payload == b""))
 
 
 def _worker_trunc(ctx, job):
@@ -386,6 +431,9 @@ def run_atheris(ctx, runs, shards):
 def run(ctx):
     quick = ctx.tier == "quick"
     ctx.parallel(_worker, [400] * 16 if quick else [12000] * 16)
+    import bellows.ezsp as e_
+
+    ctx.parallel(_worker_repeat, sorted(e_.EZSP._BY_VERSION))
     pairs = all_pairs()
     if quick:
         # a rotating twelfth - plus, always, the commands whose response types have decoding rules of their own
